@@ -233,6 +233,11 @@ def access_model(t_unit: Any, kid: str) -> dict:
                                 f"{len(idx)} indices for {len(shape)} axes"})
             return
         doms = domain_conds(inames)
+        if not doms:
+            # the iteration domain is EMPTY (a reduction over a zero-length axis,
+            # inlined): the access is never executed
+            stats["accesses_in_empty_domain"] = stats.get("accesses_in_empty_domain", 0) + 1
+            return
         for ax, (ie, ext) in enumerate(zip(idx, shape)):
             stats["index_components"] += 1
             names: set[str] = set()
@@ -254,7 +259,34 @@ def access_model(t_unit: Any, kid: str) -> dict:
                     except Unsupported11:
                         dropped += 1
                 divs = [to_tla(subst_scalars(d), names) for d in divisors_of(ie2)]
-                dts = [[to_tla(subst_scalars(c), names) for c in conj] for conj in doms]
+                # the part of the iteration domain that matters: constraints connected
+                # (through shared variables) to the index / extent / guards.  A
+                # constraint on ONE other variable with constant, non-empty bounds
+                # (an independent loop of the nest) is dropped with its variable;
+                # anything else is kept, so emptiness of the domain is never lost.
+                dts = []
+                for conj in doms:
+                    parts = []
+                    for c in conj:
+                        cn: set[str] = set()
+                        parts.append((to_tla(subst_scalars(c), cn), cn))
+                    core = set(names)
+                    changed = True
+                    while changed:
+                        changed = False
+                        for _txt, cn in parts:
+                            if cn & core and not cn <= core:
+                                core |= cn
+                                changed = True
+                    keep = []
+                    for txt, cn in parts:
+                        independent = len(cn) == 1 and not (cn & core) and all(
+                            v in lo_hi and None not in lo_hi[v] and lo_hi[v][0] <= lo_hi[v][1]
+                            for v in cn)
+                        if not independent:
+                            keep.append(txt)
+                            names |= cn
+                    dts.append(keep)
             except Unsupported11 as ex:
                 if str(ex) in ("Subscript", "Call"):
                     stats["data_dependent_components"] += 1
